@@ -934,7 +934,8 @@ Lemma lookup_records_inv : forall tbl hm gkey ob sb rs,
                rs = mkRset (map snd (sort_cols ob sb hm)) (sort_rows (map snd (sort_cols ob sb hm)) rows).
 Proof.
   intros tbl hm gkey ob sb rs. unfold lookup_records, sort_cols.
-  destruct (rows_of _ _) as [rows|]; [|discriminate]. intros H. injection H as <-. exists rows. auto.
+  destruct (rows_of tbl _) as [all|]; [|discriminate].
+  destruct (rows_of (filter _ tbl) _) as [rows|]; [|discriminate]. intros H. injection H as <-. exists rows. auto.
 Qed.
 
 Lemma lookup_records_sorted : forall tbl hm gkey ob sb rs,
